@@ -7,6 +7,7 @@ import (
 	"fmt"
 	"go/token"
 	"go/types"
+	"os"
 	"runtime"
 	"slices"
 	"strings"
@@ -50,6 +51,9 @@ type interpreter struct {
 	trace              bool
 	stubs              map[string]externalFn // per-run overrides (harness specific)
 	pools              map[*value][]value
+	forceInit          *ssa.Function
+	nowHook            *value // harness clock cell (unix nanos), if the harness installed one
+	lastNow            value
 }
 
 type deferred struct {
@@ -181,6 +185,7 @@ func (i *interpreter) ensureInit(fr *frame, pkg *ssa.Package) {
 
 func (i *interpreter) callInit(fr *frame, initFn *ssa.Function) {
 	// Run with a context in which nothing is symbolic: init is deterministic.
+	i.forceInit = initFn
 	callSSA(i, fr, token.NoPos, initFn, nil, nil)
 }
 
@@ -530,6 +535,9 @@ func callSSA(i *interpreter, caller *frame, callpos token.Pos, fn *ssa.Function,
 				return ext(fr, args)
 			}
 		}
+		if ext := pkgStub(fn); ext != nil {
+			return ext(fr, args)
+		}
 		if strings.HasPrefix(fn.Name(), "nondet") || strings.HasPrefix(fn.Name(), "verif") {
 			if h := harnessFn(fn.Name()); h != nil {
 				return h(fr, args)
@@ -541,9 +549,11 @@ func callSSA(i *interpreter, caller *frame, callpos token.Pos, fn *ssa.Function,
 		if fn.Pkg != nil && fn.Name() != "init" {
 			i.ensureInit(caller, fn.Pkg)
 		}
-		if fn.Name() == "init" && fn.Pkg != nil && caller != nil && caller.fn != nil && caller.fn.Name() == "init" && caller.fn.Pkg != fn.Pkg {
-			// an importer's init calling ours: we initialise lazily instead
-			i.ensureInit(caller, fn.Pkg)
+		if fn == i.forceInit {
+			i.forceInit = nil
+		} else if fn.Name() == "init" && fn.Pkg != nil && caller != nil && caller.fn != nil && caller.fn.Name() == "init" && caller.fn.Pkg != fn.Pkg {
+			// an importer's init calling ours: skipped; this package is initialised lazily, the
+			// first time one of its globals is read or one of its functions is called
 			return nil
 		}
 	}
@@ -551,6 +561,9 @@ func callSSA(i *interpreter, caller *frame, callpos token.Pos, fn *ssa.Function,
 		i.ctx.end("UNSUPPORTED", "uninstantiated generic function %s", fn)
 	}
 	i.funcsSeen[fn] = true
+	if i.trace && i.depth < 8 {
+		fmt.Fprintf(os.Stderr, "%*s-> %s\n", i.depth*2, "", fn.String())
+	}
 
 	fr.env = make(map[ssa.Value]value, 16)
 	fr.block = fn.Blocks[0]
@@ -587,7 +600,7 @@ func runFrame(fr *frame) {
 			}
 			buf := make([]byte, 8192)
 			buf = buf[:runtime.Stack(buf, false)]
-			panic(engineError{msg: fmt.Sprintf("%v", r), site: fr.site(), stack: string(buf)})
+			panic(engineError{msg: fmt.Sprintf("%v", r), site: fr.site(), stack: strings.Join(fr.stack(), "\n  ") + "\n" + string(buf)})
 		}
 		fr.panicking = true
 		fr.panic = r
